@@ -357,4 +357,102 @@ theorem decSubBytes_message {f : Field} (hg : f.kind ≠ .group) {body : List By
   unfold decSubBytes
   simp only [hg, if_false, ne_eq, not_true_eq_false, decBytes_enc' hlen]
 
+/-! ### lengths of extracted payloads -/
+
+theorem decBytes_payload_len {b p : List Byte} {n : Nat} (h : decBytes b = .ok (p, n)) : p.length + 1 ≤ b.length := by
+  unfold decBytes at h
+  split at h
+  · simp at h
+  · rename_i m n' heq
+    have hn := decVarint_len heq
+    split at h
+    · simp at h
+    · simp only [Except.ok.injEq, Prod.mk.injEq] at h
+      rw [← h.1]; simp only [List.length_take, List.length_drop]; omega
+
+theorem stripZeros7_length_le (b : List Byte) : (stripZeros7 b).length ≤ b.length := by
+  unfold stripZeros7
+  rw [List.length_reverse]
+  have := (List.dropWhile_sublist (fun x : Byte => x.toNat % 128 == 0) (l := b.reverse)).length_le
+  simpa using this
+
+theorem consumeFieldValue_le {num typ : Nat} {b : List Byte} {d : Int} {n : Nat}
+    (h : consumeFieldValue num typ b d = .ok n) : n ≤ b.length := by
+  unfold consumeFieldValue at h
+  split at h
+  · rename_i r hr; subst h; exact (fieldValueLen_le _).1 _ _ _ _ _ hr
+  · simp at h
+
+theorem consumeGroup_payload_len {num : Nat} {b p : List Byte} {d : Int} {n : Nat}
+    (h : consumeGroup num b d = .ok (p, n)) : p.length + 1 ≤ b.length := by
+  unfold consumeGroup at h
+  split at h
+  · simp at h
+  · rename_i n' hn
+    have hle := consumeFieldValue_le hn
+    have hne : b ≠ [] := by
+      intro e; subst e
+      simp [consumeFieldValue, Spec.fuelFor, fieldValueLen, groupLen, decTag, decVarint, decVarintAux] at hn
+      by_cases hd : d < 0 <;> simp [hd] at hn
+    have hb : 1 ≤ b.length := by
+      cases b with
+      | nil => exact absurd rfl hne
+      | cons x r => simp
+    simp only [Except.ok.injEq, Prod.mk.injEq] at h
+    have hs := stripZeros7_length_le (b.take n')
+    have hsv := sizeVarint_pos (encTag num 0)
+    rw [← h.1]
+    simp only [List.length_take] at hs ⊢
+    omega
+
+theorem decSubBytes_payload_len {f : Field} {wt : Nat} {val p : List Byte}
+    (h : decSubBytes f wt val = some (.ok p)) : p.length + 1 ≤ val.length := by
+  unfold decSubBytes at h
+  split at h
+  · split at h
+    · simp at h
+    · split at h
+      · rename_i p' n heq
+        simp only [Option.some.injEq, Except.ok.injEq] at h; subst h
+        exact consumeGroup_payload_len heq
+      · simp at h
+  · split at h
+    · simp at h
+    · split at h
+      · rename_i p' n heq
+        simp only [Option.some.injEq, Except.ok.injEq] at h; subst h
+        exact decBytes_payload_len heq
+      · simp at h
+
+/-- the packed loop never runs out of its fuel -/
+theorem decPacked_no_fuel (k : Kind) : ∀ (fuel : Nat) (b : List Byte), b.length + 1 ≤ fuel →
+    decPacked k fuel b ≠ .error .fuel
+  | 0, b, h => by omega
+  | fuel + 1, [], _ => by simp [decPacked]
+  | fuel + 1, x :: r, h => by
+    rw [decPacked_succ k fuel (by simp)]
+    have step : ∀ (n : Nat) (F : Vals → Vals), 1 ≤ n →
+        Except.map F (decPacked k fuel ((x :: r).drop n)) ≠ .error .fuel := by
+      intro n F hn
+      have := decPacked_no_fuel k fuel ((x :: r).drop n) (by
+        simp only [List.length_drop, List.length_cons] at h ⊢; omega)
+      cases hr : decPacked k fuel ((x :: r).drop n) with
+      | ok v => simp [Except.map]
+      | error e => simp only [Except.map]; intro he; apply this; rw [hr]; simpa using he
+    split
+    · split
+      · rename_i v n heq; exact step n _ (decVarint_len heq).1
+      · simp
+    · split
+      · rename_i v n heq
+        have : n = 4 := by unfold decFixed at heq; split at heq <;> simp at heq; omega
+        exact step n _ (by omega)
+      · simp
+    · split
+      · rename_i v n heq
+        have : n = 8 := by unfold decFixed at heq; split at heq <;> simp at heq; omega
+        exact step n _ (by omega)
+      · simp
+    · simp
+
 end Pb
